@@ -74,3 +74,49 @@ Proof.
       destruct (Z.eqb_spec c 0); [lia|]. rewrite Ehp, Esh, p4a_setptr by lia.
       do 4 eexists. split; [reflexivity|]. split; [reflexivity|]. split; [lia|]. split; [lia|]. left; reflexivity.
 Qed.
+
+(* ---- grow round 3: the generated Remove WITH its memory-pool-index update, and Clear ---- *)
+Lemma p4a_setempty H s ptr stt mpi : 1 <= mpi <= 4 ->
+  Gen_P4A.pvSetEmpty H s ptr stt mpi = (Gen_P4.pvSetEmpty H s mpi, 0, mpi - 1).
+Proof. intros. unfold Gen_P4A.pvSetEmpty. rewrite p4a_setptr by assumption. reflexivity. Qed.
+
+(* the generated Remove (pointer state = two scalars, memPoolIndex read from it) does to mShortHashes exactly what the Remove
+   all LimP4 theorems are about does, and updates pointer and memory-pool index exactly as TableP4.premove_at's bookkeeping:
+   last element: pointer null, index reset to minMemPoolIndex unless it is maxCount; otherwise both unchanged *)
+Theorem p4a_remove_refines H mm s ptr stt iter idx : 0 <= stt < 4 -> 1 <= mm <= 4 ->
+  let c := Gen_P4.pvGetCount s in let mpi := stt + 1 in
+  match Gen_P4.Remove H mm s iter ptr mpi idx with
+  | Ok (_, s') =>
+      exists r stt', Gen_P4A.Remove H mm s ptr stt iter idx = Ok (r, s', (if c =? 1 then 0 else ptr), stt') /\
+        stt' + 1 = (if c =? 1 then (if mpi =? 4 then mpi else mm) else mpi) /\ 0 <= stt' < 4
+  | Stuck => Gen_P4A.Remove H mm s ptr stt iter idx = Stuck
+  | _ => False
+  end.
+Proof.
+  intros Hst Hmm c mpi. unfold Gen_P4.Remove, Gen_P4A.Remove. rewrite p4a_mpi by assumption. fold mpi.
+  destruct (p4a_same_leaves H s ptr stt) as (Ec & _). rewrite Ec. fold c.
+  destruct (Z.eqb_spec ptr 0); cbn [negb]; [reflexivity|].
+  destruct (Z.eqb_spec c 1).
+  - destruct (Z.eqb_spec iter ptr); [|reflexivity].
+    unfold Gen_P4.maxCount, Gen_P4A.maxCount.
+    destruct (Z.eqb_spec mpi 4) as [E4|E4]; cbn [negb].
+    + rewrite p4a_setempty by lia. do 2 eexists. split; [reflexivity|]. split; lia.
+    + rewrite p4a_setempty by lia. do 2 eexists. split; [reflexivity|]. split; lia.
+  - destruct (Z.ltb_spec idx c); [|reflexivity].
+    rewrite p4a_setptr by lia. do 2 eexists. split; [reflexivity|]. split; lia.
+Qed.
+
+(* Clear (generated): every metadata byte is the empty marker, the pointer is null, the memory-pool index is reset to
+   minMemPoolIndex, so the bucket is empty and WasFull only if minMemPoolIndex = maxCount *)
+Theorem p4a_clear_frame H mm s ptr stt : 4 <= H -> 1 <= mm <= 4 ->
+  let '(s', ptr', stt') := Gen_P4A.Clear H mm s ptr stt in
+  (forall j, 0 <= j < H -> s' j = 255) /\ ptr' = 0 /\ stt' + 1 = mm /\ Gen_P4.pvGetCount s' = 0 /\
+  Gen_P4A.WasFull s' ptr' stt' = (mm =? 4).
+Proof.
+  intros HH Hmm. unfold Gen_P4A.Clear. rewrite p4a_setempty by assumption.
+  assert (Hs : forall j, 0 <= j < H -> Gen_P4.pvSetEmpty H s mm j = 255).
+  { intros j Hj. unfold Gen_P4.pvSetEmpty, Gen_P4.emptyHashProbe. destruct (Z.leb_spec 0 j), (Z.ltb_spec j H); try lia. reflexivity. }
+  split; [exact Hs|]. split; [reflexivity|]. split; [lia|]. split.
+  - unfold Gen_P4.pvGetCount, Gen_P4.maskEmpty. rewrite (Hs 1), (Hs 0) by lia. reflexivity.
+  - rewrite p4a_wasfull by lia. replace (mm - 1 + 1) with mm by lia. reflexivity.
+Qed.
